@@ -24,9 +24,9 @@ import (
 type tstate int
 
 const (
-	stRunning tstate = iota // granted; may be durably blocked in a real operation
-	stParked                // waiting at a Point for a grant (enabled)
-	stVBlocked              // blocked on a virtual object (mutex, wait group, once)
+	stRunning  tstate = iota // granted; may be durably blocked in a real operation
+	stParked                 // waiting at a Point for a grant (enabled)
+	stVBlocked               // blocked on a virtual object (mutex, wait group, once)
 	stFinished
 )
 
@@ -44,13 +44,14 @@ type Thread struct {
 	// recently comes first (it is the causal successor of what just happened)
 	enabledAt int
 	inEnabled bool
+	held      map[any]int // virtual locks currently held (lockset race detection)
 }
 
 // Step is one recorded choice of an execution.
 type Step struct {
-	N      int    `json:"n"`      // number of alternatives
-	Choice int    `json:"c"`      // alternative taken
-	Kind   string `json:"k"`      // "sched" or the Choose site
+	N      int    `json:"n"`           // number of alternatives
+	Choice int    `json:"c"`           // alternative taken
+	Kind   string `json:"k"`           // "sched" or the Choose site
 	Who    string `json:"w,omitempty"` // thread granted / choosing
 	Site   string `json:"s,omitempty"`
 }
@@ -68,12 +69,13 @@ type Config struct {
 
 type Result struct {
 	Steps      []Step
-	Deadlock   bool   // body never returned and nothing can run
+	Deadlock   bool // body never returned and nothing can run
 	StepLimit  bool
 	Divergence string // non-empty: replay diverged (check is broken, not a verdict)
 	Panics     []string
 	Blocked    []string // description of threads that were blocked at the end
 	BodyDone   bool
+	Races      []string // shared objects accessed by two goroutines without a common lock
 	ClockTicks int
 	Log        []string
 	Leaked     int
@@ -95,6 +97,16 @@ type Sched struct {
 	logSeq   int
 	// per-execution user data (harness logs)
 	events []string
+	shared map[string]*sharedState
+}
+
+// sharedState is the Eraser lockset state of one named shared object.
+type sharedState struct {
+	first    *Thread
+	shared   bool
+	modified bool // written after it became shared
+	lockset  map[any]bool
+	reported bool
 }
 
 var cur atomic.Pointer[Sched]
@@ -577,4 +589,89 @@ func (s *Sched) loop() {
 		}
 	}
 	s.mu.Unlock()
+}
+
+// NoteAcquire / NoteRelease are called by the vsync shims so that the scheduler
+// knows which virtual locks a goroutine holds.
+func NoteAcquire(lock any) {
+	s := cur.Load()
+	if s == nil {
+		return
+	}
+	if th := s.self(); th != nil {
+		s.mu.Lock()
+		if th.held == nil {
+			th.held = map[any]int{}
+		}
+		th.held[lock]++
+		s.mu.Unlock()
+	}
+}
+
+func NoteRelease(lock any) {
+	s := cur.Load()
+	if s == nil {
+		return
+	}
+	if th := s.self(); th != nil {
+		s.mu.Lock()
+		if th.held[lock] > 0 {
+			th.held[lock]--
+			if th.held[lock] == 0 {
+				delete(th.held, lock)
+			}
+		}
+		s.mu.Unlock()
+	}
+}
+
+// Access records an access to the named shared object (a map of the code under
+// test). Lockset discipline (Eraser): the object may be used by one goroutine
+// without locks (initialisation) and read by many; as soon as a second goroutine touches it, the set of locks
+// held at every further access is intersected; an empty intersection is an
+// unsynchronised concurrent access (for a Go map: a fatal runtime error in some
+// schedule). It is not a scheduling point: the verdict depends on the locks held, not on the interleaving.
+func Access(name string, write bool) {
+	s := cur.Load()
+	if s == nil {
+		return
+	}
+	th := s.self()
+	if th == nil {
+		return
+	}
+	s.mu.Lock()
+	defer s.mu.Unlock()
+	if s.shared == nil {
+		s.shared = map[string]*sharedState{}
+	}
+	st := s.shared[name]
+	if st == nil {
+		s.shared[name] = &sharedState{first: th}
+		return
+	}
+	if !st.shared {
+		if st.first == th {
+			return
+		}
+		st.shared = true
+		st.lockset = map[any]bool{}
+		for l := range th.held {
+			st.lockset[l] = true
+		}
+	} else {
+		for l := range st.lockset {
+			if th.held[l] == 0 {
+				delete(st.lockset, l)
+			}
+		}
+	}
+	if write {
+		st.modified = true
+	}
+	// concurrent reads are fine for a Go map: only a shared AND modified object needs a common lock
+	if st.modified && len(st.lockset) == 0 && !st.reported {
+		st.reported = true
+		s.res.Races = append(s.res.Races, fmt.Sprintf("%s: accessed by thread %d (%s) at %s while no lock is common to all goroutines that use it (first user: thread %d %s)", name, th.ID, th.Name, th.site, st.first.ID, st.first.Name))
+	}
 }
